@@ -133,7 +133,7 @@ func (x vfHandle) scalar() uint64 {
 	case x.c != nil:
 		return x.c.Value()
 	case x.g != nil:
-		return 0
+		return uint64(int64(x.g.Value()))
 	default:
 		if x.h.isTombstone {
 			return 0
@@ -432,7 +432,7 @@ func vfProg(tok string) []vfOp {
 		switch p[0] {
 		case "r", "u":
 			op.tuple = vfTuple(p[1])
-		case "e":
+		case "e", "S":
 			op.slot, _ = strconv.Atoi(p[1])
 			op.d = p[2]
 		case "a":
@@ -462,9 +462,9 @@ func vfExec(m *vfMetric, prog []vfOp, slots []vfHandle) (res []vfRes, outSlots [
 				h := m.resolve(op.tuple)
 				slots = append(slots, h)
 				res = append(res, vfRes{code: "h", h: h})
-			case "e":
+			case "e", "S":
 				if op.slot < len(slots) {
-					slots[op.slot].emit(false, op.d)
+					slots[op.slot].emit(op.code == "S", op.d)
 				}
 				res = append(res, vfRes{code: "e"})
 			case "a":
@@ -486,7 +486,7 @@ func vfWeight(kind string, progs [][]vfOp) uint64 {
 	var tot uint64
 	for _, p := range progs {
 		for _, op := range p {
-			if op.code == "e" || op.code == "a" {
+			if op.code == "e" || op.code == "a" || op.code == "S" {
 				if kind == "c" {
 					v, _ := strconv.ParseUint(op.d, 10, 64)
 					tot += v
@@ -558,6 +558,16 @@ func vfConcRound(pool *vfPool, kind string, cap, nl int, noise bool, setup []vfO
 	setupRes, base := vfExec(m, setup, nil)
 	n := len(progs)
 	results := pool.results
+	checkSnap := kind != "g"
+	for _, p := range append([][]vfOp{setup}, progs...) {
+		for _, op := range p {
+			if op.code == "u" {
+				checkSnap = false
+			}
+		}
+	}
+	lastSeen := map[string]float64{}
+	var snapViol atomic.Bool
 	stopNoise := make(chan struct{})
 	var nwg sync.WaitGroup
 	if noise {
@@ -578,6 +588,30 @@ func vfConcRound(pool *vfPool, kind string, cap, nl int, noise bool, setup []vfO
 				}
 				s := m.r.Subscribe(SubscribeOptions{BufferSize: 2})
 				buf = m.r.AppendSnapshot(buf[:0], SnapshotOptions{})
+				// a NON-quiescent snapshot: without unregisters a series value never goes backwards between two
+				// snapshots and never more than cap series are shown (every series value lies between its values
+				// at the start and at the end of the snapshot)
+				if checkSnap {
+					n := 0
+					for _, smp := range buf {
+						if smp.Name != "vf.m" {
+							continue
+						}
+						n++
+						v := smp.Value
+						if smp.Type == MetricHistogram {
+							v = float64(smp.Histogram.Count)
+						}
+						k := vfLabelsTok(smp.Labels)
+						if old, ok := lastSeen[k]; ok && v < old {
+							snapViol.Store(true)
+						}
+						lastSeen[k] = v
+					}
+					if cap > 0 && n > cap {
+						snapViol.Store(true)
+					}
+				}
 				m.r.publishTick(nil, time.Unix(0, 0))
 				s.Unsubscribe()
 			}
@@ -663,12 +697,18 @@ func vfConcRound(pool *vfPool, kind string, cap, nl int, noise bool, setup []vfO
 	acc += ic.CardinalityDrops + ic.UnknownSeriesEmits + ic.StaleHandleEmits
 	total := vfWeight(kind, append([][]vfOp{setup}, progs...))
 	lost := int64(total - acc)
+	if kind == "g" {
+		lost = 0 // a gauge value does not count emissions
+	}
 	sb.WriteString(";c=" + strconv.FormatInt(ic.SeriesTotal, 10))
 	sb.WriteString(";d=" + strconv.FormatUint(ic.CardinalityDrops, 10))
 	sb.WriteString(";u=" + strconv.FormatUint(ic.UnknownSeriesEmits, 10))
 	sb.WriteString(";s=" + strconv.FormatUint(ic.StaleHandleEmits, 10))
 	sb.WriteString(";lost=" + strconv.FormatInt(lost, 10))
 	sb.WriteString(";" + strings.Join(tparts, ";"))
+	if snapViol.Load() {
+		sb.WriteString(";SNAPVIOL")
+	}
 	return sb.String()
 }
 
@@ -981,9 +1021,16 @@ func vfRegRound(p *vfRegPool, noise, pre bool) string {
 		}
 		parts = append(parts, name+":reg="+strconv.Itoa(len(distinct))+","+same+";m="+strings.Join(live, "+")+
 			";c="+strconv.FormatInt(c, 10)+";d="+strconv.FormatUint(d, 10)+";u="+strconv.FormatUint(u, 10)+
-			";s="+strconv.FormatUint(st, 10)+";lost="+strconv.FormatInt(int64(total-acc), 10)+";"+strings.Join(tparts, ";"))
+			";s="+strconv.FormatUint(st, 10)+";lost="+strconv.FormatInt(vfLost(rm, total, acc), 10)+";"+strings.Join(tparts, ";"))
 	}
 	return strings.Join(parts, " # ")
+}
+
+func vfLost(rm *vfMetric, total, acc uint64) int64 {
+	if rm != nil && rm.kind == "g" {
+		return 0
+	}
+	return int64(total - acc)
 }
 
 func vfReg(f []string) string {
